@@ -178,7 +178,7 @@ def history_stream(ctx, repo_src, root, lookups, langs, edits_spec, quick=True, 
     scratch = ctx.scratch / f"hist_{tag}"
     scratch.mkdir(parents=True, exist_ok=True)
     (scratch / "cwd").mkdir(exist_ok=True)
-    jobs, plan = [], []
+    jobs, fresh_jobs, plan = [], [], []
     root, lookups = pathlib.Path(root), [pathlib.Path(l) for l in lookups]
 
     def private_copy(name):
@@ -225,16 +225,17 @@ def history_stream(ctx, repo_src, root, lookups, langs, edits_spec, quick=True, 
             outs = [scratch / jn / "out0", scratch / jn / "out1"]
             runs = build(base, outs)
             jobs.append({"name": jn, "runs": runs, "hashseed": "0", "fake_time": 1.0e9, "fake_step": 0.0})
-            fn = f"{tag}{len(jobs)}"
-            fbase = private_copy(fn)
-            fout = scratch / fn / "fresh"
-            frun = make_run(argv(lang, fbase, fout, fextra), fout, scratch / "cwd", edits=(abs_edits(fbase, fedit) if fedit else None),
-                            gen_calls=([fcall] if fcall is not None else None))
-            jobs.append({"name": fn, "runs": [frun], "hashseed": "0", "fake_time": 1.0e9, "fake_step": 0.0})
+            # the fresh-process comparison run: AFTER the history, on the very same (now edited) input copy — same absolute location —
+            # into a fresh directory
+            fn = f"{tag}{len(jobs)}f"
+            fout = scratch / jn / "fresh"
+            frun = make_run(argv(lang, base, fout, fextra), fout, scratch / "cwd", gen_calls=([fcall] if fcall is not None else None))
+            fresh_jobs.append({"name": fn, "runs": [frun], "hashseed": "0", "fake_time": 1.0e9, "fake_step": 0.0})
             plan.append({"scenario": name, "lang": lang, "job": jn, "fresh": fn, "final_out": runs[-1]["out"], "fresh_out": str(fout),
                          "runs": [{"argv": [a.replace(str(scratch), "<scratch>") for a in r["argv"]], "gen_calls": r["gen_calls"],
                                    "edits": [e[0].replace(str(scratch), "<scratch>") for e in r["edits"]]} for r in runs]})
     results = exec_jobs(repo_src, ctx.scratch, jobs, max_workers=14)
+    results.update(exec_jobs(repo_src, ctx.scratch, fresh_jobs, max_workers=14))
     findings = []
     for pl in plan:
         h, f = results[pl["job"]], results[pl["fresh"]]
